@@ -939,6 +939,9 @@ def gen_c12_pool(r, deep=0):
     ex["o5"] = ["+", ["*", ["*", r.choice(pl), L(f[0])], L(f[-1])], sq_sum(f, True)]  # cross term coefficient
     iv = pick(2)
     ex["oi"] = ["+", ["*", L(iv[0]), ["**", r.choice(pl), ["num", -1]]], sq_sum(iv, False)]  # x * p**-1 (a rate, a price per unit)
+    pw = pick(2)
+    # a Parameter in EXPONENT position over a base that is positive everywhere (an elasticity)
+    ex["opw"] = ["+", ["**", ["+", ["*", L(pw[0]), L(pw[0])], ["num", 1.5]], r.choice(pl)], sq_sum(pw, False)]
     f2 = pick(3)
     ex["oa"] = ["chain", "+", [["*", ["*", r.choice(pl), L(f2[0])], L(f2[1 % len(f2)])], ["*", ["*", L(f2[-1]), r.choice(pl)], L(f2[0])],
                                ["**", ["-", L(f2[0]), ["num", 1.0]], ["num", 2]]]]  # two parameter-weighted bilinear terms
@@ -1252,6 +1255,38 @@ def mutate_spec(r, sp):
         for d in m["vars"]:
             if d["kind"] == "scalar" and r.random() < 0.5:
                 d["domain"] = "integer"
+    return m
+
+
+def nudge_constants(r, sp):
+    """Same names, same tree shapes, and every numeric literal moved in its 7th-12th significant
+    digit (exponents of ** excepted): whatever identifies a model by a rounded or formatted rendering
+    of its constants takes the two for one."""
+    import copy
+
+    m = copy.deepcopy(sp)
+    d = r.choice([3e-7, 3e-7, 2.5e-7, 4e-8, 1e-11]) * r.choice([1, -1])
+
+    def walk(e, exponent=False):
+        if not isinstance(e, list):
+            return
+        if len(e) == 2 and e[0] in ("num", "npnum") and isinstance(e[1], (int, float)) and not isinstance(e[1], bool):
+            if not exponent and e[1] != 0:
+                e[1] = float(e[1]) * (1.0 + d)
+            return
+        if len(e) == 3 and e[0] == "**":
+            walk(e[1])
+            walk(e[2], True)
+            return
+        for c in e:
+            walk(c)
+
+    for k in m["exprs"]:
+        walk(m["exprs"][k])
+    for c in m["cons"].values():
+        for f in ("lhs", "rhs"):
+            if f in c:
+                walk(c[f])
     return m
 
 
@@ -1613,7 +1648,10 @@ def gen_c14(r, tier="quick"):
         mid = 10 + j
         k = r.random()
         twin_script = False
-        if k < 0.45:
+        if k < 0.1:
+            A = nudge_constants(r, M)  # same names and structure, constants equal to six digits only
+            twin_script = r.random() < 0.9
+        elif k < 0.45:
             A = mutate_spec(r, M)  # same names and structure, other values / bounds / domains
             twin_script = r.random() < 0.75
         elif k < 0.65:
@@ -2261,7 +2299,10 @@ def gen_fault(r, kmax=40, lp=False):
         return {"site": "eval", "k": r.choice([1, 2, 3, 5, 8, 13, 30]), "exc": exc}
     if k < 0.6:
         # the callback raises part-way through its own evaluation (j-th line executed inside optyx code)
-        return {"site": "cbi", "k": r.choice([1, 1, 1, 2, 2, 3, 4, 6]), "j": r.choice([1, 2, 2, 3, 3, 4, 5, 6, 8, 12]), "exc": exc}
+        # (half of the time deep inside it: the closures of vector / matrix nodes are reached only after
+        # the wrapper's and the outer evaluators' own lines)
+        j = r.choice([1, 2, 2, 3, 3, 4, 5, 6, 8, 12]) if r.random() < 0.5 else r.randint(7, 48)
+        return {"site": "cbi", "k": r.choice([1, 1, 1, 2, 2, 3, 4, 6]), "j": j, "exc": exc}
     return {"site": "cb", "k": kk, "exc": exc}
 
 
